@@ -380,7 +380,20 @@ def sp_ensures(s):
     return out
 
 
-C_SP = Contract(f"{PU}:sum_patches", setup=sp_setup, requires=sp_requires, ensures=sp_ensures, inline=AF_INLINE)
+def sp_result(ctx, s):
+    fi = flat(ctx, s.indices)
+    W = lift(s.obj_shape[1])
+    if cm.is_cx(s.patches):
+        pre, pim = flat(ctx, s.interp.getattr(s.patches, "real")), flat(ctx, s.interp.getattr(s.patches, "imag"))
+        fn = lambda h, w: Cx(scatter_spec(fi, pre, lift(h) * W + lift(w)), scatter_spec(fi, pim, lift(h) * W + lift(w)))
+    else:
+        fp = flat(ctx, s.patches)
+        fn = lambda h, w: scatter_spec(fi, fp, lift(h) * W + lift(w))
+    r = SymArr(tuple(s.obj_shape), fn, "real")
+    return cm.like(r, None, ctx)
+
+
+C_SP = Contract(f"{PU}:sum_patches", setup=sp_setup, requires=sp_requires, ensures=sp_ensures, result=sp_result, inline=AF_INLINE)
 
 # ------------------------------------------------------------------------------------------------ ObjectBase._get_obj_patches (gather)
 
@@ -409,8 +422,8 @@ def gop_requires(s):
 
 def gop_ensures(s):
     res = s.result
-    out = [("shape=(S,)+indices.shape", shapes_eq(res.shape, (s.S,) + tuple(s.patch_indices.shape)))]
-    if len(res.shape) != 4:
+    out = [("shape=(S,)+indices.shape", shapes_eq(res.shape, (s.obj_array.shape[0],) + tuple(s.patch_indices.shape)))]
+    if len(res.shape) != 4 or s.mode != "verify":
         return out
     s0, b0, i0, j0 = lift(s.s0), lift(s.b0), lift(s.i0), lift(s.j0)
     v = res.fn(s0, b0, i0, j0)
@@ -425,7 +438,30 @@ def gop_ensures(s):
     return out
 
 
-C_GOP = Contract(f"{OM}:ObjectBase._get_obj_patches", setup=gop_setup, requires=gop_requires, ensures=gop_ensures)
+def gop_result(ctx, s):
+    """call sites see the gather through its specification (definitional result)"""
+    obj, idx = s.obj_array, s.patch_indices
+    W = lift(obj.shape[2])
+    of, xf = obj.fn, idx.fn
+    cx = cm.is_cx(obj)
+
+    def fn(sl, b, i, j):
+        q = lift(xf(b, i, j))
+        v = of(sl, q / W, q % W)
+        return v if cx else cis(v)
+
+    r = SymArr((obj.shape[0],) + tuple(idx.shape), fn, "complex")
+    r.c16_cx = True
+    return cm.like(r, None, ctx)
+
+
+def gop_requires_any(s):
+    if not hasattr(s, "H"):
+        s.H, s.W = s.obj_array.shape[1], s.obj_array.shape[2]
+    return gop_requires(s)
+
+
+C_GOP = Contract(f"{OM}:ObjectBase._get_obj_patches", setup=gop_setup, requires=gop_requires_any, ensures=gop_ensures, result=gop_result)
 
 
 # ------------------------------------------------------------------------------------------------ _propagate_array (two copies)
@@ -485,7 +521,11 @@ def pa_ensures(s):
 def pa_result(ctx, s):
     F = cm.spectrum(ctx, s.array, None)
     G = F * s.propagator_array
-    return cm.dft2(ctx, G, None, True)
+    r = cm.dft2(ctx, G, None, True)
+    # index functions are recorded as of NOW (callers may update these arrays in place afterwards)
+    cm.ctx_state(ctx).__dict__.setdefault("propagations", []).append(
+        NS(array=s.array, kernel=s.propagator_array, result=r, array_fn=s.array.fn, kernel_fn=s.propagator_array.fn, result_fn=r.fn))
+    return r
 
 
 C_PA1 = Contract(f"{PB}:PtychographyBase._propagate_array", setup=pa_setup_for(PBASE), requires=pa_requires, ensures=pa_ensures, result=pa_result)
@@ -527,7 +567,19 @@ def op_loop_inv(s):
             ("len(propagated_probes)=k+1", lift(cm.tl_len(pp)) == lift(s.k) + 1),
             ("overlap=obj_patches[k]*propagated_probes[k]", ceq(s.overlap.fn(*g, lift(i0), lift(j0)),
                                                                 s.obj_patches.fn(lift(s.k), g[1], lift(i0), lift(j0)) * cm.tl_get(pp, lift(s.k), *g, lift(i0), lift(j0)))),
-            ("propagated_probes[0]=input_probe", ceq(cm.tl_get(pp, 0, *g, lift(i0), lift(j0)), s.input_probe.fn(*g, lift(i0), lift(j0))))]
+            ("propagated_probes[0]=input_probe", ceq(cm.tl_get(pp, 0, *g, lift(i0), lift(j0)), s.input_probe.fn(*g, lift(i0), lift(j0)))),
+            ("the step from slice k-1 to slice k propagates with propagators[k-1] (and nothing else)", op_kernel_clause(s, i0, j0))]
+
+
+def op_kernel_clause(s, i0, j0):
+    """ghost: the _propagate_array applications recorded on this path (at most the one of the iteration under verification)"""
+    log = cm.ctx_state(s.ctx).__dict__.get("propagations", [])
+    if not log:
+        return z3.BoolVal(True)
+    if len(log) > 1:
+        return z3.BoolVal(False)
+    props = s.pre.self.fields["_propagators"]
+    return ceq(log[-1].kernel_fn(lift(i0), lift(j0)), props.fn(lift(s.k) - 1, lift(i0), lift(j0)))
 
 
 def op_havoc_list(ctx, old):
@@ -814,7 +866,114 @@ def fse_ensures(s):
 
 C_FSE = Contract(f"{PU}:fourier_shift_expand", setup=fse_setup, ensures=fse_ensures, inline=AF_INLINE)
 
-CONTRACTS = [C_FTO, C_WL, C_CPA, C_SPB, C_SP, C_GOP, C_PA1, C_PA2, C_OP, C_DET, C_EA, C_FP, C_GS, C_FSE]
+
+# ------------------------------------------------------------------------------------------------ ObjectPixelated.forward (pure-phase object)
+
+OBJPIX_Q = f"{OM}:ObjectPixelated"
+OBJ_GETTERS = [f"{OM}:ObjectPixelated.obj", f"{OM}:ObjectPixelated.num_slices", f"{OM}:ObjectBase.obj_type", f"{OM}:ObjectBase.mask",
+               "quantem.diffractive_imaging.constraints:BaseConstraints.constraints", f"{OM}:ObjectConstraints.apply_hard_constraints"]
+
+
+def default_obj_constraints():
+    return dict(resolve(f"{OM}:ObjectConstraints").DEFAULT_CONSTRAINTS)
+
+
+def fwd_setup(ctx):
+    import torch
+
+    cm.ctx_state(ctx).backend = "torch"
+    Sn, H, W = pos_int(ctx, "S"), pos_int(ctx, "H"), pos_int(ctx, "W")
+    B, nr, nc = pos_int(ctx, "B", 0), pos_int(ctx, "nr"), pos_int(ctx, "nc")
+    # the RAW optimisation parameter: any complex numbers (after optimiser steps / from_array its modulus is arbitrary);
+    # "pure-phase object" is the declared obj_type, the unit modulus must come from the constraint applied by `obj`
+    raw = cm.fresh_cx(ctx, "raw_obj", (Sn, H, W))
+    me = Obj(OBJPIX, dict(_obj=raw, _obj_type="pure_phase", _constraints=default_obj_constraints(), _mask=torch.tensor([])))
+    s = NS(self=me, patch_indices=cm.fresh_real(ctx, "patch_indices", (B, nr, nc), kind="int"), raw=raw, S=Sn, H=H, W=W)
+    s.s0, s.b0, s.i0, s.j0 = idx_in(ctx, "s0", Sn), idx_in(ctx, "b0", B), idx_in(ctx, "i0", nr), idx_in(ctx, "j0", nc)
+    return s
+
+
+def fwd_requires(s):
+    s.obj_array = s.raw
+    return gop_requires(s)
+
+
+def fwd_ensures(s):
+    res = s.result
+    if not isinstance(res, SymArr):
+        return [("returns the object patches", z3.BoolVal(False))]
+    out = [("shape=(S,)+indices.shape", shapes_eq(res.shape, (s.S,) + tuple(s.patch_indices.shape)))]
+    if len(res.shape) != 4:
+        return out
+    v = res.fn(lift(s.s0), lift(s.b0), lift(s.i0), lift(s.j0))
+    out.append(("pure-phase object: every transmitted patch element has unit modulus, whatever the modulus of the raw parameter", unit(v)))
+    return out
+
+
+C_FWD = Contract(f"{OM}:ObjectPixelated.forward", setup=fwd_setup, requires=fwd_requires, ensures=fwd_ensures, inline=OBJ_GETTERS)
+
+# ------------------------------------------------------------------------------------------------ ObjectPixelated.backward (adjoint pass)
+
+
+def bwd_setup(ctx):
+    cm.ctx_state(ctx).backend = "torch"
+    Sn = 1
+    for k in (2, 3, 4):  # slice count unrolled (reversed(range(n)) loop); propagators are DISTINCT symbolic kernels
+        if ctx.branch(ctx.fresh(f"num_slices_is_{k}", "bool").t):
+            Sn = k
+            break
+    M = modes_fork(ctx)
+    H, W = pos_int(ctx, "H"), pos_int(ctx, "W")
+    B, nr, nc = pos_int(ctx, "B", 0), pos_int(ctx, "nr"), pos_int(ctx, "nc")
+    raw = cm.fresh_cx(ctx, "raw_obj", (Sn, H, W))
+    me = Obj(OBJPIX, dict(_obj=raw, _obj_type="pure_phase"))
+    s = NS(self=me, S=Sn, M=M, H=H, W=W)
+    s.gradient = cm.fresh_cx(ctx, "gradient", (M, B, nr, nc))
+    s.obj_patches = cm.fresh_cx(ctx, "obj_patches", (Sn, B, nr, nc))
+    s.shifted_probes = cm.fresh_cx(ctx, "propagated_probes", (Sn, M, B, nr, nc))
+    s.propagators = cm.fresh_cx(ctx, "propagators", (Sn - 1, nr, nc)) if Sn > 1 else cm.fresh_cx(ctx, "propagators", (0, nr, nc))
+    s.patch_indices = cm.fresh_real(ctx, "patch_indices", (B, nr, nc), kind="int")
+    s.i0, s.j0 = idx_in(ctx, "i0", nr), idx_in(ctx, "j0", nc)
+    s.m0, s.b0 = idx_in(ctx, "m0", M), idx_in(ctx, "b0", B)
+    s.case = f"S={Sn},M={M}"
+    return s
+
+
+def bwd_requires(s):
+    return [("indices-in-range(C-order view)", flat_in_range(s.ctx, s.patch_indices, lift(s.H) * lift(s.W)))]
+
+
+def bwd_ensures(s):
+    res = s.result
+    out = [("shape=gradient.shape", shapes_eq(res.shape, (s.M,) + tuple(s.obj_patches.shape[1:])) if isinstance(res, SymArr) else z3.BoolVal(False))]
+    log = cm.ctx_state(s.ctx).__dict__.get("propagations", [])
+    tag = f"[S={s.S}]"
+    out.append((f"one back-propagation per slice gap{tag}", z3.BoolVal(len(log) == s.S - 1)))
+    if len(log) != s.S - 1:
+        return out
+    i, j = lift(s.i0), lift(s.j0)
+    # the forward pass (overlap_projection) goes from slice t-1 to slice t with propagators[t-1]; back-propagation undoes it
+    # ("propagating by a distance and then its negative is the identity") only with the conjugate of THAT kernel
+    m, b = lift(s.m0), lift(s.b0)
+    wave = s.old.gradient_fn  # the wave entering slice t (before back-transmission)
+    for k, rec in enumerate(log):
+        t = s.S - 1 - k  # backward visits t = S-1, ..., 1
+        want = Cx.of(s.propagators.fn(z3.IntVal(t - 1), i, j)).conj()
+        out.append((f"back-propagation from slice {t} to slice {t - 1} uses conj(propagators[{t - 1}]), the kernel of the forward step {t - 1}->{t}{tag}",
+                    ceq(rec.kernel_fn(i, j), want)))
+        out.append((f"back-transmission through slice {t} multiplies by conj(obj_patches[{t}]) (adjoint of the transmission){tag}",
+                    ceq(rec.array_fn(m, b, i, j), Cx.of(wave(m, b, i, j)) * Cx.of(s.obj_patches.fn(z3.IntVal(t), b, i, j)).conj())))
+        wave = rec.result_fn
+    out.append((f"returned wave = wave at slice 0 times conj(obj_patches[0]){tag}",
+                ceq(res.fn(m, b, i, j), Cx.of(wave(m, b, i, j)) * Cx.of(s.obj_patches.fn(z3.IntVal(0), b, i, j)).conj())))
+    return out
+
+
+C_BWD = Contract(f"{OM}:ObjectPixelated.backward", setup=bwd_setup, requires=bwd_requires, ensures=bwd_ensures,
+                 snapshot=lambda s: NS(gradient_fn=s.gradient.fn),
+                 inline=[f"{OM}:ObjectPixelated.num_slices", f"{OM}:ObjectBase.obj_type"])
+
+CONTRACTS = [C_FTO, C_WL, C_CPA, C_SPB, C_SP, C_GOP, C_PA1, C_PA2, C_OP, C_DET, C_EA, C_FP, C_GS, C_FSE, C_FWD, C_BWD]
 # ------------------------------------------------------------------------------------------------ property-level lemmas
 
 cm.enable_trig_schema()
@@ -965,7 +1124,9 @@ for _c, _rt, _fam, _conc in ((C_FTO, RT.rt_ramp, RT.fam_ramp, conc_ramp), (C_FSE
                              (C_SPB, RT.rt_patches, RT.fam_patches, conc_patches), (C_SP, RT.rt_patches, RT.fam_patches, conc_patches),
                              (C_GOP, RT.rt_patches, RT.fam_patches, conc_patches), (C_OP, RT.rt_energy, RT.fam_energy, conc_energy),
                              (C_DET, RT.rt_detector, RT.fam_detector, conc_detector), (C_EA, RT.rt_estimate_amplitudes, RT.fam_estimate_amplitudes, conc_ea),
-                             (C_FP, RT.rt_projection, RT.fam_projection, conc_projection), (C_GS, RT.rt_projection, RT.fam_projection, conc_projection)):
+                             (C_FP, RT.rt_projection, RT.fam_projection, conc_projection), (C_GS, RT.rt_projection, RT.fam_projection, conc_projection),
+                             (C_FWD, RT.rt_objforward, RT.fam_objforward, lambda ev: dict(S=_cap(ev("S", 2), 3), M=1, B=1, roi=conc_roi(ev), modulus=(0.5, 1.5), seed=1)),
+                             (C_BWD, RT.rt_backward, RT.fam_backward, lambda ev: dict(S=4 if ev("num_slices_is_4", False) else 3, M=1 if ev("single_mode", True) else 2, B=1, roi=conc_roi(ev), seed=1))):
     _c.rt, _c.rt_family, _c.concretize = _rt, _fam, _conc
 
 BOUNDED = [
@@ -979,6 +1140,10 @@ BOUNDED = [
                     "1..5 patches of 1x1..5x2 in grids up to 7x6, wrap-around and repeated positions, real and complex, int32/int64 indices"),
     Bounded.from_rt("pure-phase multislice: summed pattern intensity = probe intensity", RT.rt_energy, RT.fam_energy,
                     "1,2,3,5 slices x 1..3 modes x 5 ROIs (odd/even/non-square), with and without tilt, end to end through the real gather, propagators, overlap_projection and detector"),
+    Bounded.from_rt("pure-phase ObjectPixelated.forward: unit-modulus patches for any raw parameter, energy through the real chain", RT.rt_objforward, RT.fam_objforward,
+                    "1..3 slices x 1,2 modes x 3 ROIs x raw modulus {1, [0.5,1.5], [2,3]} (object built by from_array, obj_type='pure_phase')"),
+    Bounded.from_rt("ObjectPixelated.backward undoes overlap_projection; <F psi,g> = <psi,B g>", RT.rt_backward, RT.fam_backward,
+                    "1..5 slices with non-uniform thicknesses x 1,2 modes x 3 ROIs, with and without tilt"),
     Bounded.from_rt("detector: Parseval (non-square ROIs), mode sum, DC position", RT.rt_detector, RT.fam_detector, "1,2,4 modes x 10 ROIs 1x1..3x8"),
     Bounded.from_rt("single-mode Fourier projection: exact amplitudes (detector convention), idempotent, gradient_step", RT.rt_projection, RT.fam_projection_single,
                     "8 ROIs (10 thorough), measured zeros, zero Fourier coefficients, tiny amplitudes", klass=RT.klass_projection),
@@ -1018,8 +1183,13 @@ ASSUMPTIONS = [
     "so the ramp is cast to a real dtype and the result is not the shifted array",
     "estimate_amplitudes: the statement makes no claim about it; its contract only fixes shape, non-negativity, centring and the incoherent mode sum up to a "
     "regulariser 0 <= e <= 1e-6 added to the spectrum (the code's eps for autograd stability)",
-    "overlap_projection: proved clauses are shapes, propagated_probes[0] = input, overlap = obj[S-1]*propagated[S-1] and the energy invariant; "
-    "WHICH propagator each step uses (propagated_probes[s] = propagate(obj[s-1]*propagated_probes[s-1], P[s-1])) is covered by the bounded stand-in only",
+    "overlap_projection (symbolic slice count): shapes, propagated_probes[0] = input, overlap = obj[S-1]*propagated[S-1], the step k-1 -> k uses propagators[k-1], "
+    "and the energy invariant. ObjectPixelated.backward: slice count unrolled 1..4 with distinct symbolic kernels, 1-2 modes, obj_type pure_phase: per step the "
+    "kernel is conj(propagators[t-1]) and the transmission is conj(obj_patches[t]); that these steps compose to backward(F(psi)) = psi uses P*conj(P) = 1 and the "
+    "trusted DFT congruence / inverse - end to end only in the bounded stand-in. The object-gradient part of backward (scatter of conj(probe)*grad) is interpreted "
+    "but carries no clause",
+    "ObjectPixelated.forward: verified for obj_type 'pure_phase' with the default constraint set (no FOV mask, no blur / Butterworth, no identical_slices) and an "
+    "arbitrary complex raw parameter; other obj_types / constraint settings belong to C10",
     "adjointness of scatter/gather, 'integer shift = roll', the detector/multislice energy chain across functions rest on the trusted finite-sum / DFT steps listed in TRUSTED",
 ]
 EXPLANATION = ("VCs from the real source of 14 functions (phase ramps, propagators, scatter/gather, propagation, multislice loop with an energy loop invariant, "
